@@ -335,4 +335,177 @@ theorem pushforward_density_inv_pieces (T Tinv d : ℝ → ℝ) (hd : PiecewiseD
   refine setLIntegral_congr_fun hA (fun x _ => ?_)
   rw [← ENNReal.ofReal_mul (abs_nonneg _), mul_comm]
 
+/-! ### finite-dimensional, finitely many pieces (kinks on a null set, e.g. a hyperplane) -/
+section piecesN
+set_option linter.unusedSectionVars false
+variable {E : Type*} [NormedAddCommGroup E] [NormedSpace ℝ E] [FiniteDimensional ℝ E]
+  [MeasurableSpace E] [BorelSpace E] (μ : Measure E) [μ.IsAddHaarMeasure]
+
+/-- `f` has Fréchet derivative `f'` on each of finitely many measurable, pairwise disjoint pieces that cover `E`;
+at a boundary point of a piece the derivative is taken within the piece. -/
+def PiecewiseFDeriv (f : E → E) (f' : E → E →L[ℝ] E) : Prop :=
+  ∃ (n : ℕ) (S : Fin n → Set E), (∀ i, MeasurableSet (S i)) ∧ Pairwise (Function.onFun Disjoint S) ∧
+    (⋃ i, S i) = univ ∧ ∀ i, ∀ x ∈ S i, HasFDerivWithinAt f (f' x) (S i) x
+
+theorem PiecewiseFDeriv.of_hasFDerivAt {f : E → E} {f' : E → E →L[ℝ] E} (h : ∀ x, HasFDerivAt f (f' x) x) :
+    PiecewiseFDeriv f f' := by
+  refine ⟨1, fun _ => univ, fun _ => MeasurableSet.univ, ?_, ?_, fun _ x _ => (h x).hasFDerivWithinAt⟩
+  · intro i j hij; exact absurd (Subsingleton.elim i j) hij
+  · exact iUnion_const _
+
+/-- two pieces: a measurable set and its complement -/
+theorem PiecewiseFDeriv.of_two {f : E → E} {f' : E → E →L[ℝ] E} {A : Set E} (hA : MeasurableSet A)
+    (h1 : ∀ x ∈ A, HasFDerivWithinAt f (f' x) A x) (h2 : ∀ x ∈ Aᶜ, HasFDerivWithinAt f (f' x) Aᶜ x) :
+    PiecewiseFDeriv f f' := by
+  refine ⟨2, ![A, Aᶜ], ?_, ?_, ?_, ?_⟩
+  · intro i; fin_cases i
+    · exact hA
+    · exact hA.compl
+  · intro i j hij
+    rw [Function.onFun, Set.disjoint_left]
+    intro x hx hx'
+    fin_cases i <;> fin_cases j <;> simp at hij hx hx' <;> contradiction
+  · ext x
+    simp only [mem_iUnion, mem_univ, iff_true]
+    by_cases hx : x ∈ A
+    · exact ⟨0, hx⟩
+    · exact ⟨1, hx⟩
+  · intro i; fin_cases i
+    · exact h1
+    · exact h2
+
+/-- change of variables for an injective piecewise differentiable map, Bochner integral, no integrability hypothesis -/
+theorem integral_range_eq_of_piecewiseN {f : E → E} {f' : E → E →L[ℝ] E} (hf : Function.Injective f)
+    (hd : PiecewiseFDeriv f f') (g : E → ℝ) :
+    ∫ x in range f, g x ∂μ = ∫ x, |(f' x).det| • g (f x) ∂μ := by
+  obtain ⟨n, S, hm, hdis, hc, hder⟩ := hd
+  have hinjS : ∀ i, InjOn f (S i) := fun i => hf.injOn
+  have himg_meas : ∀ i, MeasurableSet (f '' S i) := fun i =>
+    measurable_image_of_fderivWithin (hm i) (hder i) (hinjS i)
+  have himg_disj : Pairwise (Function.onFun Disjoint fun i => f '' S i) := fun i j hij =>
+    (disjoint_image_iff hf).mpr (hdis hij)
+  have hcover : (⋃ i, f '' S i) = range f := by rw [← image_iUnion, hc, image_univ]
+  have key : ∀ i, ∫ x in f '' S i, g x ∂μ = ∫ x in S i, |(f' x).det| • g (f x) ∂μ := fun i =>
+    integral_image_eq_integral_abs_det_fderiv_smul μ (hm i) (hder i) (hinjS i) g
+  have keyI : ∀ i, IntegrableOn g (f '' S i) μ ↔ IntegrableOn (fun x => |(f' x).det| • g (f x)) (S i) μ :=
+    fun i => integrableOn_image_iff_integrableOn_abs_det_fderiv_smul μ (hm i) (hder i) (hinjS i) g
+  by_cases hI : ∀ i, IntegrableOn g (f '' S i) μ
+  · rw [← hcover, integral_iUnion_fintype himg_meas himg_disj hI]
+    have e : ∫ x, |(f' x).det| • g (f x) ∂μ = ∫ x in ⋃ i, S i, |(f' x).det| • g (f x) ∂μ := by
+      rw [hc, setIntegral_univ]
+    rw [e, integral_iUnion_fintype hm hdis (fun i => (keyI i).mp (hI i))]
+    exact Finset.sum_congr rfl (fun i _ => key i)
+  · have h1 : ¬ IntegrableOn g (range f) μ := by
+      rw [← hcover, integrableOn_finite_iUnion]; exact hI
+    have h2 : ¬ Integrable (fun x => |(f' x).det| • g (f x)) μ := by
+      rw [← integrableOn_univ, ← hc, integrableOn_finite_iUnion]
+      intro hh; exact hI (fun i => (keyI i).mpr (hh i))
+    rw [integral_undef h1, integral_undef h2]
+
+/-- the same for the lower Lebesgue integral over the image of any measurable set -/
+theorem lintegral_image_eq_of_piecewiseN {f : E → E} {f' : E → E →L[ℝ] E} (hf : Function.Injective f)
+    (hd : PiecewiseFDeriv f f') {A : Set E} (hA : MeasurableSet A) (g : E → ENNReal) :
+    MeasurableSet (f '' A) ∧
+    ∫⁻ x in f '' A, g x ∂μ = ∫⁻ x in A, ENNReal.ofReal |(f' x).det| * g (f x) ∂μ := by
+  obtain ⟨n, S, hm, hdis, hc, hder⟩ := hd
+  have hmA : ∀ i, MeasurableSet (A ∩ S i) := fun i => hA.inter (hm i)
+  have hderA : ∀ i, ∀ x ∈ A ∩ S i, HasFDerivWithinAt f (f' x) (A ∩ S i) x := fun i x hx =>
+    (hder i x hx.2).mono inter_subset_right
+  have hinjS : ∀ i, InjOn f (A ∩ S i) := fun i => hf.injOn
+  have himg_meas : ∀ i, MeasurableSet (f '' (A ∩ S i)) := fun i =>
+    measurable_image_of_fderivWithin (hmA i) (hderA i) (hinjS i)
+  have hdisA : Pairwise (Function.onFun Disjoint fun i => A ∩ S i) := fun i j hij =>
+    (hdis hij).mono inter_subset_right inter_subset_right
+  have himg_disj : Pairwise (Function.onFun Disjoint fun i => f '' (A ∩ S i)) := fun i j hij =>
+    (disjoint_image_iff hf).mpr (hdisA hij)
+  have hA' : A = ⋃ i, A ∩ S i := by rw [← inter_iUnion, hc, inter_univ]
+  have hcover : f '' A = ⋃ i, f '' (A ∩ S i) := by rw [← image_iUnion, ← hA']
+  refine ⟨by rw [hcover]; exact MeasurableSet.iUnion himg_meas, ?_⟩
+  rw [hcover, lintegral_iUnion himg_meas himg_disj]
+  conv_rhs => rw [hA', lintegral_iUnion hmA hdisA]
+  congr 1; funext i
+  exact lintegral_image_eq_lintegral_abs_det_fderiv_mul μ (hmA i) (hderA i) (hinjS i) g
+
+/-- **mass is preserved, kinks on finitely many piece boundaries allowed** (forward form) -/
+theorem mass_preserved_piecesN (T Tinv : E → E) (T' : E → E →L[ℝ] E) (hd : PiecewiseFDeriv T T')
+    (hne : ∀ x, (T' x).det ≠ 0)
+    (hl : Function.LeftInverse Tinv T) (hr : Function.RightInverse Tinv T) (p : E → ℝ) :
+    ∫ y, p (Tinv y) * |(T' (Tinv y)).det|⁻¹ ∂μ = ∫ z, p z ∂μ := by
+  have h := integral_range_eq_of_piecewiseN μ hl.injective hd (fun y => p (Tinv y) * |(T' (Tinv y)).det|⁻¹)
+  rw [hr.surjective.range_eq, setIntegral_univ] at h
+  rw [h]
+  congr 1; funext x
+  have : |(T' x).det| ≠ 0 := abs_ne_zero.mpr (hne x)
+  simp only [hl x, smul_eq_mul]; field_simp
+
+/-- mass is preserved, with the (piecewise) Jacobian of the inverse map -/
+theorem mass_preserved_inv_piecesN (T Tinv : E → E) (D : E → E →L[ℝ] E) (hd : PiecewiseFDeriv Tinv D)
+    (hl : Function.LeftInverse Tinv T) (hr : Function.RightInverse Tinv T) (p : E → ℝ) :
+    ∫ y, p (Tinv y) * |(D y).det| ∂μ = ∫ z, p z ∂μ := by
+  have h := integral_range_eq_of_piecewiseN μ hr.injective hd p
+  rw [hl.surjective.range_eq, setIntegral_univ] at h
+  rw [h]
+  congr 1; funext x
+  simp only [smul_eq_mul]; ring
+
+/-- piecewise continuous on finitely many measurable pieces ⇒ measurable -/
+theorem PiecewiseFDeriv.measurable {f : E → E} {f' : E → E →L[ℝ] E} (hd : PiecewiseFDeriv f f') : Measurable f := by
+  obtain ⟨n, S, hm, -, hc, hder⟩ := hd
+  intro A hA
+  have e : f ⁻¹' A = ⋃ i, S i ∩ f ⁻¹' A := by rw [← iUnion_inter, hc, univ_inter]
+  rw [e]
+  refine MeasurableSet.iUnion fun i => ?_
+  have hcont : ContinuousOn f (S i) := fun x hx => (hder i x hx).continuousWithinAt
+  have h1 : Measurable ((S i).domRestrict f) := (continuousOn_iff_continuous_domRestrict.mp hcont).measurable
+  have h2 := (hm i).subtype_image (h1 hA)
+  have e2 : (Subtype.val '' ((S i).domRestrict f ⁻¹' A)) = S i ∩ f ⁻¹' A := by
+    ext x; constructor
+    · rintro ⟨⟨y, hy⟩, hyA, rfl⟩; exact ⟨hy, hyA⟩
+    · rintro ⟨hx, hxA⟩; exact ⟨⟨x, hx⟩, hxA, rfl⟩
+  rwa [e2] at h2
+
+/-- push-forward law, forward form, kinks allowed -/
+theorem pushforward_density_piecesN (T Tinv : E → E) (T' : E → E →L[ℝ] E) (hd : PiecewiseFDeriv T T')
+    (hne : ∀ x, (T' x).det ≠ 0)
+    (hl : Function.LeftInverse Tinv T) (hr : Function.RightInverse Tinv T) (p : E → ℝ) :
+    Measurable T ∧
+    Measure.map T (μ.withDensity fun z => ENNReal.ofReal (p z))
+      = μ.withDensity fun y => ENNReal.ofReal (p (Tinv y) * |(T' (Tinv y)).det|⁻¹) := by
+  have hmeas := hd.measurable
+  refine ⟨hmeas, ?_⟩
+  ext A hA
+  rw [Measure.map_apply hmeas hA, withDensity_apply _ (hmeas hA), withDensity_apply _ hA]
+  have himg : T '' (T ⁻¹' A) = A := image_preimage_eq A hr.surjective
+  have h := (lintegral_image_eq_of_piecewiseN μ hl.injective hd (hmeas hA)
+    (fun y => ENNReal.ofReal (p (Tinv y) * |(T' (Tinv y)).det|⁻¹))).2
+  rw [himg] at h
+  rw [h]
+  refine setLIntegral_congr_fun (hmeas hA) (fun x _ => ?_)
+  simp only [hl x]
+  rw [← ENNReal.ofReal_mul (abs_nonneg _)]
+  congr 1
+  have : |(T' x).det| ≠ 0 := abs_ne_zero.mpr (hne x)
+  field_simp
+
+/-- push-forward law with the (piecewise) Jacobian of the inverse map -/
+theorem pushforward_density_inv_piecesN (T Tinv : E → E) (D : E → E →L[ℝ] E) (hd : PiecewiseFDeriv Tinv D)
+    (hl : Function.LeftInverse Tinv T) (hr : Function.RightInverse Tinv T) (p : E → ℝ) :
+    Measurable T ∧
+    Measure.map T (μ.withDensity fun z => ENNReal.ofReal (p z))
+      = μ.withDensity fun y => ENNReal.ofReal (p (Tinv y) * |(D y).det|) := by
+  have hpre : ∀ A : Set E, T ⁻¹' A = Tinv '' A := by
+    intro A; ext x; constructor
+    · intro hx; exact ⟨T x, hx, hl x⟩
+    · rintro ⟨y, hy, rfl⟩; simpa [hr y] using hy
+  have hmeas : Measurable T := fun A hA => by
+    rw [hpre]; exact (lintegral_image_eq_of_piecewiseN μ hr.injective hd hA (fun _ => 0)).1
+  refine ⟨hmeas, ?_⟩
+  ext A hA
+  rw [Measure.map_apply hmeas hA, withDensity_apply _ (hmeas hA), withDensity_apply _ hA, hpre]
+  rw [(lintegral_image_eq_of_piecewiseN μ hr.injective hd hA _).2]
+  refine setLIntegral_congr_fun hA (fun x _ => ?_)
+  rw [← ENNReal.ofReal_mul (abs_nonneg _), mul_comm]
+
+end piecesN
+
 end Mass
